@@ -454,4 +454,17 @@ theorem C20_server_message_accepted (ip : List Byte) (port : Nat) (cookies : Lis
 
 example : serverMsg [49] 123 [[1], [2]] ≠ none := by decide
 
+/-- The client's request (next protocol NTPv4, AES-SIV-CMAC-256, end) is read by the server's
+    `ReadData` without error under every segmentation, leaving algorithm 15 and no cookie. -/
+theorem C20_client_request_accepted (chunks : List (List Byte)) (h : chunks.flatten = packMsg clientMsg) :
+    readData chunks {} = ({ algo := aesSivCmac256 }, none) := by
+  have := readData_packed [.nextProto ntpv4, .algorithm [aesSivCmac256]]
+    (by intro r hr
+        simp only [List.mem_cons, List.not_mem_nil, or_false] at hr
+        rcases hr with rfl | rfl
+        · simp [Fits, ntpv4]
+        · exact ⟨_, rfl, by decide⟩)
+    chunks [] (by rw [h]; rfl) {}
+  simpa [Rec.apply] using this
+
 end ScionTime.C20
